@@ -20,7 +20,7 @@ func genConcOp(t *rapid.T, nkeys int, futurePct int) WOp {
 		if DrawBool(t, futurePct, "future") {
 			op.Exp = rapid.SampledFrom([]string{"future", "far", "max", "half"}).Draw(t, "fexp")
 		} else {
-			op.Exp = rapid.SampledFrom([]string{"latest", "latest", "latest", "latest", "ok", "ok", "mine", "stale", "zero", "zero"}).Draw(t, "exp")
+			op.Exp = rapid.SampledFrom([]string{"latest", "latest", "latest", "latest", "ok", "ok", "mine", "stale", "zero", "zero", "soon"}).Draw(t, "exp")
 		}
 	}
 	return op
